@@ -2,7 +2,7 @@
    resolve to their pointer.  For EVERY token width W and every limit
    1 <= max < W-1 (strictly more than the 8-bit exploration the property text
    suggests).  Statements only; proofs in AppPtr_proofs.v. *)
-From RLBoxV Require Import AppPtr AppPtr_proofs AppPtr_owner_proofs.
+From RLBoxV Require Import AppPtr AppPtr_proofs AppPtr_owner_proofs AppPtr2 AppPtr2_proofs.
 Local Open Scope Z_scope.
 
 (* one registration from any state satisfying the invariant: a fresh token in
@@ -115,3 +115,33 @@ Theorem C15_nonvacuous :
             keys (entries m) = [1; 3; 2; 0] /\ lookup_index 1 m = Ok 104 /\
             get_app_pointer_idx 256 3 105 m = Abort.
 Proof. exact table_example. Qed.
+
+(* ---- several sandboxes (coq/AppPtr2.v): each sandbox has a table of its own, so owners of
+   different sandboxes hold EQUAL tokens, and a move-assignment may overwrite an owner of one
+   sandbox by an owner of another.  Every history of that world that does not abort is, seen from
+   each sandbox, a history of the single-sandbox owner layer (an owner of another sandbox is an
+   inert slot there) … ---- *)
+Theorem C15_many_sandboxes_project : forall W max s ops w w',
+  (s < length (maps2 w))%nat -> wf2 w ->
+  Forall (oop2_ok (length (owners2 w))) ops -> Forall (oop2_sbx_ok (length (maps2 w))) ops ->
+  orun2 W max w ops = Ok w' ->
+  orun code_overwrite_releases W max (proj s w) (map (proj_op s) ops) = Ok (proj s w').
+Proof. exact orun2_proj. Qed.
+Print Assumptions C15_many_sandboxes_project.
+(* … hence, for every sandbox and every history: its live owners hold exactly its live tokens, no
+   token has two owners, every owner's token is in 1..max and resolves IN ITS OWN TABLE to the
+   pointer it was issued for; an overwritten or moved-from owner holds nothing *)
+Theorem C15_owners_all_histories_many_sandboxes : forall W max ns n ops w s,
+  1 <= max -> max < W - 1 -> (s < ns)%nat ->
+  Forall (oop2_ok n) ops -> Forall (oop2_sbx_ok ns) ops ->
+  orun2 W max {| maps2 := repeat amap_init ns; owners2 := repeat None n |} ops = Ok w ->
+  ainv max (amapw (proj s w)) /\
+  NoDup (held (owners (proj s w))) /\
+  (forall i, In i (held (owners (proj s w))) <-> In i (live_tokens (amapw (proj s w)))) /\
+  (forall k, match owner_at (proj s w) k, fold_left gstep (map (proj_op s) ops) ghost_init k with
+             | Some i, Some p => 1 <= i <= max /\ lookup_index i (amapw (proj s w)) = Ok p
+             | None, None => True
+             | _, _ => False
+             end).
+Proof. exact owners2_hold_live_tokens. Qed.
+Print Assumptions C15_owners_all_histories_many_sandboxes.
